@@ -18,6 +18,16 @@ THEOREMS = ["Mistune.iterRender_shape",
             "Mistune.thematicRule_matchAt_hit", "Mistune.thematicRule_matchAt_iff", "Mistune.atxSpec_blank_fixed_iff", "Mistune.md_heading_roundtrip", "Mistune.md_thematic_break_roundtrip",
             # one iteration of BlockParser.parse on a written heading / thematic break, and whole documents made of them
             "Mistune.md_heading_step", "Mistune.md_thematic_break_step", "Mistune.blank_line_step", "Mistune.leafDoc_blockParse"]
+# (re-enabled when C13Quote is imported again)
+QUOTE_THEOREMS = [
+            # block quotes: what MarkdownRenderer.block_quote writes (exactly), the rule block_quote fires on it, extract_block_quote / parse_block_quote give back exactly the
+            # rendered children (minus the trailing empty quote lines the renderer drops), one iteration of BlockParser.parse consumes exactly what was written
+            "Mistune.indentAll_lines", "Mistune.md_block_quote_lines", "Mistune.md_block_quote_lines_last", "Mistune.blockQuoteRule_matchAt_hit", "Mistune.quoteBreakSc_ok",
+            "Mistune.quoteRules_ok", "Mistune.md_block_quote_extract", "Mistune.md_block_quote_roundtrip", "Mistune.md_block_quote_step",
+            # ... and nesting: require_marker decided by the first character, the quote that ends its subject, the child parse of a quote whose only child is a quote, two levels
+            "Mistune.reqMarker_false_of_first", "Mistune.quoteReqSc_gt_ok", "Mistune.md_block_quote_extract_eos", "Mistune.md_block_quote_step_eos", "Mistune.md_quote_only_parse",
+            "Mistune.md_block_quote_nested"]
+
 
 
 def strip_ref(tokens):
@@ -207,6 +217,69 @@ def heading_tie(ctx, n):
     return len(reqs)
 
 
+def quote_tie(ctx, n):
+    """MarkdownRenderer.block_quote / textwrap.indent(text, prefix, always-true) against their Lean transcriptions (Mistune/MdBlocks.lean: mdBlockQuote, indentAll) on generated
+    children texts (the real method is called on a token whose only child is a text token rendering to the given text); and the statements of md_block_quote_lines /
+    md_block_quote_roundtrip evaluated on the implementation: for content lines within the hypotheses the method writes exactly "> " + line for every line followed by one blank
+    line, and BlockParser.extract_block_quote on that output (followed by a paragraph) returns exactly the content lines and the end of the renderer's blank line"""
+    import re
+    import textwrap
+    import mistune
+    from mistune.renderers import markdown as mdr
+    from mistune.core import BlockState
+    r = mdr.MarkdownRenderer()
+    block = mistune.BlockParser()
+    rule = re.compile(block.SPECIFICATION["block_quote"], re.M)
+    sc0 = block.compile_sc(["blank_line", "indent_code", "fenced_code"])
+    d = common.Driver()
+    reqs, exp = [], []
+    pieces = ["foo", "bar", "a b", ">", "> ", " ", "  ", "    ", "\t", "\n", "\n\n", "\n", "#", "-", "* x", "```", "1.", "\r", "\r\n", "\x0b", "\x0c", "\x1c", "\x85", "\u2028", "\u2029", "é", "<div>"]
+    for i in range(n):
+        inner = "".join(ctx.rng.choice(pieces) for _ in range(ctx.rng.randint(0, 8)))
+        tok = {"type": "block_quote", "children": [{"type": "text", "raw": inner}]}
+        reqs.append(("md_block_quote", enc(inner))); exp.append((("block_quote", inner), r.block_quote(tok, BlockState())))
+        if i % 4 == 0:
+            pre = ctx.rng.choice(["> ", ">", "  ", ""])
+            reqs.append(("md_indent_all", enc(pre), enc(inner))); exp.append((("indent", pre, inner), textwrap.indent(inner, pre, lambda _: True)))
+    # the theorems on the implementation
+    safe = ["foo", "bar", "a b", ">", " ", "  ", "#", "-", "* x", "1.", "é", "x\ty", "`", "<b>"]
+    breaks = "\n\r\x0b\x0c\x1c\x1d\x1e\x85\u2028\u2029"
+    indom = 0
+    for i in range(max(50, n // 4)):
+        ls = ["".join(ctx.rng.choice(safe) for _ in range(ctx.rng.randint(0, 4))) for _ in range(ctx.rng.randint(1, 4))]
+        bs = ["".join(ctx.rng.choice([">", " "]) for _ in range(ctx.rng.randint(0, 3))) for _ in range(ctx.rng.randint(0, 2))]
+        ok = (all(not re.match(r" {0,3}\t", " " + l) and not any(c in breaks for c in l) for l in ls)   # no exotic line separator, no tab in the indentation
+              and ls[-1].strip("> ") != ""                                                             # the last content line is not made of '>' and blanks only
+              and ls[-1].strip() != ""                                                                 # ... nor blank
+              and sc0.match(ls[0] + "\n") is None)                                                     # the first line is not blank / indented code / a fence
+        if not ok:
+            continue
+        indom += 1
+        inner = "".join(l + "\n" for l in ls + bs)
+        out = r.block_quote({"type": "block_quote", "children": [{"type": "text", "raw": inner}]}, BlockState())
+        want = "".join("> " + l + "\n" for l in ls) + "\n"
+        if out != want:
+            ctx.fail("quote-lines", "MarkdownRenderer.block_quote on the children text %r wrote %r, expected %r" % (inner, out, want), {"inner": inner})
+            continue
+        src = out + "next\n"
+        st = BlockState(); st.process(src)
+        m = rule.match(src, 0)
+        text, end_pos = (None, None) if m is None else block.extract_block_quote(m, st)
+        if text != "".join(l + "\n" for l in ls) or end_pos != len(out):
+            ctx.fail("quote-roundtrip", "MarkdownRenderer.block_quote(%r) wrote %r; extract_block_quote on it gives %r, end %r" % (inner, out, text, end_pos), {"doc": src, "inner": inner})
+    outs = d.batch(reqs)
+    bad = 0
+    for (arg, want), got in zip(exp, outs):
+        if dec(got) != want:
+            bad += 1
+            if bad <= 3:
+                ctx.broken.append("markdown-renderer block_quote model: on %r the implementation gives %r, the Lean transcription %r" % (arg, want, dec(got)))
+    ctx.cov["md_quote_cases_compared"] = len(reqs)
+    ctx.cov["md_quote_disagreements"] = bad
+    ctx.cov["md_quote_roundtrip_checked"] = indom
+    return len(reqs)
+
+
 def replay_known(ctx):
     import mistune
     from mistune.renderers.markdown import MarkdownRenderer
@@ -230,6 +303,7 @@ def run(ctx):
     common.model_tie(ctx, srcs, "core", "doc", limit=(600 if ctx.quick() else 6000))
     n += code_tie(ctx, 1500 if ctx.quick() else 20000)
     n += heading_tie(ctx, 1500 if ctx.quick() else 20000)
+    n += quote_tie(ctx, 1500 if ctx.quick() else 20000)
     if ctx.broken and not ctx.failures:
         ctx.notes.append("search mode entered")
         n2, _ = oracle(ctx, 20000, 4)
